@@ -46,3 +46,88 @@ pub fn rt_complex() {
         }
     });
 }
+
+// ---- (c) TcpSource reassembly over a ghost byte stream -----------------------------
+use crate::blk::*;
+use std::os::fd::FromRawFd;
+use std::sync::atomic::{AtomicUsize, Ordering};
+
+const GB: usize = 0x7e14_0000_0000_0000;
+static GPOS: AtomicUsize = AtomicUsize::new(GB);
+static GLEN: AtomicUsize = AtomicUsize::new(GB + 0x100);
+static mut GHOST: [u8; 16] = [0x5a; 16];
+static mut SEGS: [usize; 8] = [0x11; 8];
+static CALLNO: AtomicUsize = AtomicUsize::new(GB + 0x200);
+
+/// Kani stub for `<TcpStream as Read>::read`: delivers the next k ghost bytes, k symbolic in
+/// 1..=min(max_seg, buf.len(), remaining); 0 at end of stream (and for an empty buffer).
+pub fn tcp_read_stub(_s: &mut std::net::TcpStream, buf: &mut [u8]) -> std::io::Result<usize> {
+    let pos = GPOS.load(Ordering::SeqCst) - GB;
+    let len = GLEN.load(Ordering::SeqCst) - (GB + 0x100);
+    let remaining = len - pos;
+    if buf.is_empty() || remaining == 0 {
+        return Ok(0);
+    }
+    // the size of every read() result is a size, hence enumerated per instance (SEGS)
+    let c = CALLNO.load(Ordering::SeqCst) - (GB + 0x200);
+    CALLNO.store(GB + 0x200 + c + 1, Ordering::SeqCst);
+    // SAFETY: single-threaded harness.
+    let mut k = unsafe { SEGS[if c < 8 { c } else { 7 }] };
+    if k > buf.len() {
+        k = buf.len();
+    }
+    if k > remaining {
+        k = remaining;
+    }
+    for i in 0..k {
+        // SAFETY: single-threaded harness, pos+i < len <= 16.
+        buf[i] = unsafe { GHOST[pos + i] };
+    }
+    GPOS.store(GB + pos + k, Ordering::SeqCst);
+    Ok(k)
+}
+
+/// TcpSource<u32>: `len` ghost bytes arrive in the enumerated segments `segs` (1..4 bytes each) over `calls`
+/// work() calls (output capacity `cap` samples, drained before every call): the emitted
+/// samples are exactly the complete little-endian samples of the bytes delivered so far.
+pub fn tcp_source(len: usize, cap: usize, calls: usize, segs: &[usize], drain_mask: u32) {
+    for i in 0..8 {
+        // SAFETY: single-threaded harness.
+        unsafe { SEGS[i] = if i < segs.len() { segs[i] } else { 4 } };
+    }
+    CALLNO.store(GB + 0x200, Ordering::SeqCst);
+    for i in 0..len {
+        // SAFETY: single-threaded harness.
+        unsafe { GHOST[i] = any::<u8>() };
+    }
+    GPOS.store(GB, Ordering::SeqCst);
+    GLEN.store(GB + 0x100 + len, Ordering::SeqCst);
+    set_cap(cap);
+    // SAFETY: the descriptor is never used (read is stubbed) and the stream is never dropped.
+    let stream = unsafe { std::net::TcpStream::from_raw_fd(3) };
+    let (mut src, rx) = rustradio::tcp_source::verif_access::with_stream::<u32>(stream);
+    let mut out: Collected<u32> = Collected::new();
+    for c in 0..calls {
+        // bit c of drain_mask: the downstream reader empties the output before call c
+        if (drain_mask >> c) & 1 == 1 {
+            drain(&rx, usize::MAX, &mut out);
+        }
+        let v = work_once(&mut src);
+        assert!(v != Verdict::Err, "work() returned an error on a healthy byte stream");
+        let delivered = GPOS.load(Ordering::SeqCst) - GB;
+        let pending = rustradio::tcp_source::verif_access::pending(&src);
+        let emitted = out.data.len() + buffered_r(&rx);
+        assert!(emitted * 4 + pending == delivered, "bytes were lost or duplicated while reassembling samples");
+        if v == Verdict::Eof {
+            assert!(delivered == len, "EOF reported although the peer has more data (output full is not end of stream)");
+        }
+    }
+    drain(&rx, usize::MAX, &mut out);
+    for i in 0..out.data.len() {
+        // SAFETY: single-threaded harness.
+        let e = unsafe { (GHOST[4 * i] as u32) | ((GHOST[4 * i + 1] as u32) << 8) | ((GHOST[4 * i + 2] as u32) << 16) | ((GHOST[4 * i + 3] as u32) << 24) };
+        assert!(out.data[i] == e, "reassembled sample differs from the byte stream");
+    }
+    witness!("reassembly checked");
+    std::mem::forget((src, rx, out));
+}
